@@ -136,7 +136,7 @@ PROPS["C04"] = {
 PROPS["C13"] = {
     "jobs": [
         {"name": "exhaustive", "pkg": "./c13", "run": "^(TestExhaustiveBurst|TestExhaustiveBasic)$", "shards": T(4, 16), "timeout": T(600, 3600)},
-        {"name": "long-lived", "pkg": "./c13", "run": "^(TestLongLivedBasic|TestCounterWrap|TestDeepChains)$"},
+        {"name": "long-lived", "pkg": "./c13", "run": "^(TestLongLivedBasic|TestCounterWrap|TestDeepChains|TestCopiedSamplers)$"},
         {"name": "compositions", "pkg": "./c13", "run": "^TestRapidCompositions$", "rapid": T(20000, 250000), "shards": T(1, 16), "replay": "^TestReplay$"},
         {"name": "logger", "pkg": "./c13", "run": "^TestRapidThroughLogger$", "rapid": T(10000, 100000), "shards": T(1, 16)},
         {"name": "concurrent", "pkg": "./c13", "run": "^TestConcurrentBasic$", "rapid": T(300, 3000), "shards": T(1, 4)},
